@@ -786,3 +786,6 @@ def run(ctx):
     for h in range(ctx.n(3, 80)):
         run_crossprocess_sequence(ctx, rng, ("s", h))
     witness_f6(ctx)
+    # several first requests at once through the entry point for external WSGI servers: one Application, one storage lock (level of C11)
+    from props.c11 import wsgi_entry_level
+    wsgi_entry_level(ctx)
